@@ -25,6 +25,7 @@ use unimock::*;
 pub trait Tr {
     fn f(&self, x: u8) -> u32;
     fn g(&self, x: u8) -> u32;
+    fn h(&self, x: u8) -> u32;
 }
 """
 
@@ -99,6 +100,9 @@ def render_order(idx, t):
     exp_u = tree_text(t, unordered, [0])
     staggered = [f"Mk::g.each_call(matching!((x) if *x >= {n - 1 - i})).returns({300 + i}u32)" for i in range(n)]
     exp_s = tree_text(t, staggered, [0])
+    # ordered clauses interleaved with exactly quantified unordered clauses of another method
+    mixed = [f"Mk::f.next_call(matching!({i})).returns({100 + i}u32)" if i % 2 == 0 else f"Mk::h.some_call(matching!({i})).returns({400 + i}u32).once()" for i in range(n)]
+    exp_m = tree_text(t, mixed, [0])
     return f"""    pub fn run() -> Result<(), String> {{
         // ordered terminal clauses: exactly the left-to-right order is accepted
         let u = Unimock::new({exp_o});
@@ -133,6 +137,26 @@ def render_order(idx, t):
         let n_patterns = unimock::verif::snapshot(&u).method("Tr::g").map(|m| m.patterns.len()).unwrap_or(0);
         if n_patterns != {n} {{
             return Err(format!("{{n_patterns}} patterns assembled from {n} clauses"));
+        }}
+        // ordered clauses interleaved with exactly quantified unordered ones: the ordered sequence
+        // is made of the ordered clauses alone, whatever sits between them
+        for unordered_first in [false, true] {{
+            let u = Unimock::new({exp_m});
+            let order: Vec<u8> = if unordered_first {{
+                (0..{n}u8).filter(|i| i % 2 == 1).chain((0..{n}u8).filter(|i| i % 2 == 0)).collect()
+            }} else {{
+                (0..{n}u8).collect()
+            }};
+            for i in order {{
+                let got = vh::obs::catch(|| if i % 2 == 0 {{ u.f(i) }} else {{ u.h(i) }});
+                let want = if i % 2 == 0 {{ 100 + i as u32 }} else {{ 400 + i as u32 }};
+                if got != Ok(want) {{
+                    return Err(format!("mixed composition (unordered calls first: {{unordered_first}}): call {{i}} gave {{got:?}}, expected {{want}}"));
+                }}
+            }}
+            if let Err(msg) = vh::obs::catch(move || drop(u)) {{
+                return Err(format!("mixed composition: verification after calling every clause once failed: {{msg}}"));
+            }}
         }}
         // staggered overlap: clause i accepts x >= {n}-1-i, so x = {n}-1-i is answered by clause i
         // exactly if the clauses are tried in declaration order at every position
